@@ -59,7 +59,12 @@ class LtlPastifier(LtlAstVisitor):
         out = LtlAstVisitor.visit(self, node, *args, **kwargs)
         d = self.ast.phi_name_to_node_dict
         keys = [k for k, v in d.items() if v == node]
-        self.ast.phi_name_to_node_dict.update({key: out for key in keys})
+        target = out
+        if isinstance(node, Variable):
+            # a delayed variable is wrapped in the delay; its name keeps denoting the input itself
+            while not isinstance(target, Variable):
+                target = target.children[0]
+        self.ast.phi_name_to_node_dict.update({key: target for key in keys})
         return out
 
     def visitConstant(self, node, *args, **kwargs):
